@@ -355,7 +355,7 @@ func CompileList(list List) (f Object) {
 				lc := Lambda{
 					Doc: &FuncDoc{
 						Name: name,
-						Args: []*DocArg{},
+						Args: []*DocArg{{Name: AmpRest}, {Name: "args"}},
 					},
 					Forms: List{Undefined(name)},
 				}
